@@ -277,3 +277,121 @@ CONTRACTS["scale.d3_scale_linearNice"] = {
                 # 10**floor(log10 .); the direct VC did not terminate in z3 within 20 minutes (DESIGN section 6, C14).
                 ],
 }
+
+
+# ----------------------------------------------------------------------------------------------------------------
+# C15: the time scale (over the datetime theory A-DT: a datetime is an integer number of microseconds since the epoch)
+# ----------------------------------------------------------------------------------------------------------------
+CONTRACTS["scale.dt2milli"] = {
+    "props": ["C15", "C16", "C18"], "inline": True,
+    "params": {"x": "dt"},
+    "ensures": [("elapsed_ms", "result * 1000 == us(x)"), ("float_ms", "not is_int(result)")],
+}
+CONTRACTS["scale.milli2dt"] = {
+    "props": ["C15", "C16", "C18"], "inline": True,
+    "params": {"x": "real"},
+    "ensures": [("nearest_microsecond", "-1 <= 2 * (us(result) - x * 1000) <= 1")],
+}
+CONTRACTS["scale.milli2dt@roundtrip"] = {
+    "props": ["C15"], "inline": True, "func_alias": "scale.milli2dt",
+    "params": {"t": "dt"},
+    "setup": lambda E, P, env: {"x": Num(z3.ToReal(env["t"].payload[0]) / 1000, False)},
+    "ensures": [("inverse_of_dt2milli", "result == t")],
+}
+
+
+def new_time_scale(E, P, name, clamp=False):
+    outs = []
+    for (p, lin, g) in new_linear_scale(E, P, name, clamp):
+        ts = p.new("obj", {"_linear": lin, "_methods": E.global_name(p, "scale", "d3_time_scaleLocalMethods"),
+                           "_format": E.global_name(p, "scale", "mytimeformat")}, cls=("scale", "TimeScale"))
+        outs.append((p, ts, g))
+    return outs
+
+
+def setup_time_scale(E, P, env):
+    outs = []
+    for (p, ts, g) in new_time_scale(E, P, "s"):
+        e = dict(env)
+        e.update({"self": ts, "sa": g["a"], "sb": g["b"], "sr0": g["r0"], "sr1": g["r1"]})
+        outs.append((p, e))
+    return outs
+
+
+_MS = "(us(x) / 1000)"
+CONTRACTS["scale.TimeScale.__call__"] = {
+    "props": ["C15", "C18"], "inline": True, "setup": setup_time_scale,
+    "params": {"x": "dt"}, "requires": ["sa != sb"],
+    # "agrees with a linear scale applied to milliseconds since the epoch" and hence affine in elapsed time
+    "ensures": [("linear_in_epoch_ms", "result == " + AFF.format(x=_MS, a="sa", b="sb", r0="sr0", r1="sr1")),
+                ("same_as_linear_scale", "result == self._linear._output(us(x) / 1000)")],
+}
+CONTRACTS["scale.TimeScale.__call__@proportional"] = {
+    "props": ["C15"], "inline": True, "setup": setup_time_scale, "func_alias": "scale.TimeScale.__call__",
+    "params": {"x": "dt", "y": "dt", "z": "dt"}, "requires": ["sa != sb", "sr0 != sr1"],
+    # equal durations map to equal lengths; later instants map strictly farther along the range
+    "ensures": [("equal_durations_equal_lengths",
+                 "implies(us(y) - us(x) == us(z) - us(y), self._linear._output(us(y) / 1000) - result == self._linear._output(us(z) / 1000) - self._linear._output(us(y) / 1000))"),
+                ("strictly_monotone", "implies(us(x) < us(y), (self._linear._output(us(y) / 1000) - result) * (sb - sa) * (sr1 - sr0) > 0)")],
+}
+CONTRACTS["scale.TimeScale.invert"] = {
+    "props": ["C15"], "inline": True, "setup": setup_time_scale,
+    "params": {"x": "real"}, "requires": ["sa != sb", "sr0 != sr1"],
+    "ensures": [("nearest_microsecond_of_linear_inverse", "-1 <= 2 * (us(result) - self._linear._input(x) * 1000) <= 1")],
+}
+CONTRACTS["scale.TimeScale.invert@roundtrip"] = {
+    "props": ["C15"], "inline": True, "func_alias": "scale.TimeScale.invert",
+    "params": {"t": "dt"}, "requires": ["sa != sb", "sr0 != sr1"],
+    "setup": lambda E, P, env: _setup_roundtrip(E, P, env),
+    "ensures": [("invert_of_scale_is_identity", "result == t")],
+}
+CONTRACTS["scale.TimeScale.domain@set"] = {
+    "props": ["C15"], "inline": True, "setup": setup_time_scale, "func_alias": "scale.TimeScale.domain",
+    "params": {"x": ["list", "dt", "dt"]},
+    "ensures": [("maps_domain_instants_to_range_ends", "implies(us(x[0]) != us(x[1]), self._linear._output(us(x[0]) / 1000) == sr0 and self._linear._output(us(x[1]) / 1000) == sr1)"),
+                ("returns_self", "result is self")],
+}
+CONTRACTS["scale.TimeScale.domain@get"] = {
+    "props": ["C15"], "inline": True, "func_alias": "scale.TimeScale.domain",
+    "params": {"t0": "dt", "t1": "dt", "x": "none"},
+    "setup": lambda E, P, env: [(_set_ms_domain(E, p, e), (p, e))[1] for (p, e) in setup_time_scale(E, P, env)],
+    "ensures": [("reports_the_instants_it_was_given", "result[0] == t0 and result[1] == t1")],
+}
+
+
+def _set_ms_domain(E, P, e):
+    """the linear domain holds the epoch milliseconds of two instants (the state domain(x) leaves behind)"""
+    P.assume(e["sa"].t * 1000 == z3.ToReal(e["t0"].payload[0]))
+    P.assume(e["sb"].t * 1000 == z3.ToReal(e["t1"].payload[0]))
+
+
+def _setup_roundtrip(E, P, env):
+    """x := scale(t), computed by the real closure of the scale under test"""
+    outs = []
+    for (p, e) in setup_time_scale(E, P, env):
+        out = p.get(p.get(e["self"])["_linear"])["_output"]
+        ms = Num(z3.ToReal(e["t"].payload[0]) / 1000, False)
+        for (q, v) in E.call(p, Ctx("scale", (E.new_frame(p),), True, "<setup>"), out, [ms], {}):
+            outs.append((q, dict(e, x=v)))
+    return outs
+
+
+# ----------------------------------------------------------------------------------------------------------------
+# C16: pieces of the tick-method choice
+# ----------------------------------------------------------------------------------------------------------------
+CONTRACTS["scale.d3_bisect"] = {
+    "props": ["C16", "C14"], "heap": True,
+    "params": {"a": "slist:real", "x": "real", "lo": "int", "hi": "none"},
+    "requires": ["lo == 0", "len(a) < 2147483647",
+                 "forall(lambda i, j: implies(0 <= i <= j < len(a), a[i] <= a[j]))"],
+    "modifies": [], "returns": "int",
+    "loops": {0: {"locals": {"lo": "int", "hi": "int", "mid": "int"},
+                  "inv": [("bounds", "0 <= lo <= hi <= len(a)"),
+                          ("left_not_greater", "forall(lambda i: implies(0 <= i < lo, a[i] <= x))"),
+                          ("right_greater", "forall(lambda i: implies(hi <= i < len(a), a[i] > x))")],
+                  "dec": "hi - lo"}},
+    # bisect-right in an ascending list: the insertion point after every element <= x
+    "ensures": [("in_range", "0 <= result <= len(a)"),
+                ("left_not_greater", "forall(lambda i: implies(0 <= i < result, a[i] <= x))"),
+                ("right_greater", "forall(lambda i: implies(result <= i < len(a), a[i] > x))")],
+}
